@@ -309,6 +309,20 @@ func c16Special(t *engine.T) {
  return t } %><%= z() %>|<%= t %>`, "inner|outer"},
 		{"higher-order apply", `<% let f = fn(a) { return a + "x" } %><% let apply = fn(g, v) { return g(v) } %><%= apply(f, "A") %>|<%= apply(f, apply(f, b)) %>`, "Ax|Axx"},
 		{"stored in let", `<% let f = fn(a) { return a + "x" } %><% let g = f %><%= g("A") %>`, "Ax"},
+		{"local recursive function inside a function", `<% let outer = fn(n) { let walk = fn(k) { if (k == 0) { return "done" }
+ return walk(k - 1) }
+ return walk(n) } %><%= outer(2) %>|<%= outer(0) %>`, "done|done"},
+		{"local function inside a for body", `<%= for (v) in [1, 2] { let sq = fn(k) { if (k == 0) { return 0 }
+ return k + sq(k - 1) } %><%= sq(v) %>,<% } %>`, "1,3,"},
+		{"local function passed to a top-level function", `<% let apply = fn(g, v) { return g(v) } %><% let outer = fn() { let loc = fn(k) { if (k == 0) { return "z" }
+ return loc(k - 1) }
+ return apply(loc, 2) } %><%= outer() %>`, "z"},
+		{"local function sees the enclosing function's parameter", `<% let outer = fn(p) { let inner = fn() { return p + "!" }
+ return inner() } %><%= outer("x") %>|<%= outer("y") %>`, "x!|y!"},
+		{"recursion reads its parameter after the self call", `<% let sum = fn(n) { if (n == 0) { return 0 }
+ return sum(n - 1) + n } %><%= sum(4) %>|<% let cat = fn(s, n) { if (n == 0) { return "" }
+ let rest = cat(s, n - 1)
+ return rest + s + n } %><%= cat("a", 3) %>`, "10|a1a2a3"},
 		{"text before return, emitted at top level", `<% let f = fn(a) { %>T<%= a %><% return "r" } %>[<%= f("1") %>]`, "[T1r]"},
 		{"text before return, emitted inside blocks", `<% let f = fn(a) { %>T<%= a %><% return "r" } %><%= if (true) { %>A<%= f("1") %>B<% } %>|<%= for (v) in [1, 2] { %>(<%= f("2") %>)<% } %>|<% let g = fn() { %>g<%= f("3") %>h<% } %><%= g() %>`, "AT1rB|(T2r)(T2r)|gT3rh"},
 		{"text before return, called silently", `<% let f = fn() { %>T<% return "r" } %><%= if (true) { %>A<% f() %>B<% let z = f() %>C<% } %>D`, "ABCD"},
